@@ -48,6 +48,13 @@ CHECKS = {
         ],
         "assumptions": ["classification sampled at generated points farther than 64*tol+1e-9*scale from input edges"],
     },
+    "C12": {
+        "subs": [
+            {"name": "offset", "bin": "c12_offset", "variant": "asan",
+             "quick": {"n": 160000, "size": 100}, "thorough": {"n": 2000000, "size": 150}},
+        ],
+        "assumptions": ["Round offsets judged outside the chordal band |delta|(1-cos(pi/segments)) + guard; Bevel joins are exempt from the round-dilation containment (their chord cuts inside the delta-circle)"],
+    },
 }
 
 PBT = "property-based testing (rapidcheck byte-tape generators, shrinking, replay files)"
@@ -65,4 +72,6 @@ MANIFEST_TEXT = {
     "C14": {"text": "Collider / 2D BVH / edge-pair broad phase / k-d tree compared with an all-pairs scan; small lattice configurations enumerated exhaustively",
             "note": "exhaustive only for the 3-point lattice sub-space; sampled beyond", "technique": PBT + " differential against brute force, plus exhaustive enumeration of a small sub-space"},
 }
+MANIFEST_TEXT["C12"] = {"text": "Offset judged against own distance-to-region / distance-to-complement (Round exactly outside the chordal band; all joins by containment, reach, monotonicity, regularity); Hull vs own monotone chain; Decompose and Simplify by their stated structural invariants",
+                        "note": "sampled points; regions of a few constructed families with known feature sizes", "technique": PBT + " against a distance-field reference and structural predicates"}
 NOT_CLAIMED = {}
